@@ -23,11 +23,11 @@ def epochAfter (c : Nat) (hist : List In) : Nat := (stAfter true c init hist).ep
     authenticated, signed key exchange for that name and key under that session's secret. -/
 theorem save_requires_proof (c : Nat) (hist : List In) (i : In) (name key : Nat)
     (hs : (step true c (stAfter true c init hist) i).2.2 = some (name, key)) :
-    ∃ a, ProvedNow c hist a ∧ i = keyExchangeFor c (epochAfter c hist) a name key := by
-  obtain ⟨hstep, hi⟩ := (step_save_iff c _ i name key).mp hs
+    ∃ a, ProvedNow c hist a ∧ i = keyExchangeFor c (epochAfter c hist) a name key ∧ name ≠ ownName := by
+  obtain ⟨hstep, hown, hi⟩ := (step_save_iff c _ i name key).mp hs
   have hinv := inv_after c [] hist init (inv_init c)
   obtain ⟨a, hp, hS, hK⟩ := hinv.2 hstep
-  refine ⟨a, by simpa using hp, ?_⟩
+  refine ⟨a, by simpa using hp, ?_, hown⟩
   rw [hi, hS, hK]; rfl
 
 /-- …and every other message (wrong code, reordered, repeated, truncated, malformed, forged, sealed under a key
@@ -39,15 +39,15 @@ theorem otherwise_store_unchanged (c : Nat) (hist : List In) (i : In)
   | none => rfl
   | some nk =>
     obtain ⟨n, k⟩ := nk
-    obtain ⟨a, hp, hi⟩ := save_requires_proof c hist i n k hs
+    obtain ⟨a, hp, hi, _⟩ := save_requires_proof c hist i n k hs
     exact absurd ⟨a, n, k, hp, hi⟩ h
 
 /-- completeness (the honest exchange does store): after `m1`, an accepted proof and the matching key exchange,
     the pair is saved — so the two theorems above are not vacuous. -/
-theorem honest_exchange_saves (c a name key : Nat) :
+theorem honest_exchange_saves (c a name key : Nat) (hn : name ≠ ownName) :
     (step true c (stAfter true c init [.m1, .m3 (.good a) (.validFor c 0 a true)]) (keyExchangeFor c 0 a name key)).2.2
       = some (name, key) := by
-  simp [stAfter, step, stepR, init, keyExchangeFor, openSealed, sigOk, proofOk]
+  simp [stAfter, step, stepR, init, keyExchangeFor, openSealed, sigOk, proofOk, hn]
 
 /-- the observations of `run` are those one-step observations (ties the statements above to whole runs) -/
 theorem run_last_observation (c : Nat) (hist : List In) (i : In) :
@@ -73,7 +73,7 @@ theorem store_changes_only_by_proved_exchange (h : List (Nat × In)) (c : Nat) (
     obtain ⟨n, k⟩ := nk
     right
     rw [hc] at hs
-    obtain ⟨a, hp, hi⟩ := save_requires_proof c _ i n k hs
+    obtain ⟨a, hp, hi, _⟩ := save_requires_proof c _ i n k hs
     refine ⟨a, n, k, hp, hi, ?_⟩
     rw [← hc] at hs
     simp [gstep, hs]
@@ -84,6 +84,17 @@ theorem two_connections_independent (h : List (Nat × In)) (c : Nat) (i : In) :
   have hc := conn_state_is_projection Global.init h c
   simp only [Global.init] at hc
   simp [gstep, hc, Global.init]
+
+-- the accessory's own name --------------------------------------------------------------------------------------------
+
+/-- No message whatever, in no state, stores a pairing under the accessory's own name (its key pair lives in the same
+    database under that name): a controller that proved the setup code and signed a key exchange naming itself like the
+    accessory is answered with an error (F16 repair — before it the accessory's key pair was replaced, and after the next
+    restart nobody could pair or verify any more). -/
+theorem own_name_never_stored (c : Nat) (st : St) (i : In) (key : Nat) :
+    (step true c st i).2.2 ≠ some (ownName, key) := by
+  intro hs
+  exact ((step_save_iff c st i ownName key).mp hs).2.1 rfl
 
 -- every exchange has its own SRP session ------------------------------------------------------------------------------
 
